@@ -25,10 +25,39 @@ func (p *Prog) reachable(fn *ssa.Function) map[*ssa.Function]bool {
 	if r, ok := p.reachCache[fn]; ok {
 		return r
 	}
-	res := rta.Analyze([]*ssa.Function{fn}, false)
+	res := rta.Analyze([]*ssa.Function{fn}, true)
 	seen := map[*ssa.Function]bool{fn: true}
-	for f := range res.Reachable {
-		seen[f] = true
+	work := []*ssa.Function{fn}
+	for len(work) > 0 {
+		f := work[len(work)-1]
+		work = work[:len(work)-1]
+		n := res.CallGraph.Nodes[f]
+		if n != nil {
+			for _, e := range n.Out {
+				g := e.Callee.Func
+				if g == nil || seen[g] {
+					continue
+				}
+				// encoding hooks of module types are entered from the codec libraries only on a
+				// receiver of that type; the traffic path hands those libraries request data
+				// and error values, never document objects (assumption listed in the evidence)
+				if !inModule(f) && inModule(g) && codecHook[g.Name()] {
+					continue
+				}
+				seen[g] = true
+				work = append(work, g)
+			}
+		}
+		for _, b := range f.Blocks {
+			for _, ins := range b.Instrs {
+				if mc, ok := ins.(*ssa.MakeClosure); ok {
+					if g := mc.Fn.(*ssa.Function); !seen[g] {
+						seen[g] = true
+						work = append(work, g)
+					}
+				}
+			}
+		}
 	}
 	if p.reachCache == nil {
 		p.reachCache = map[*ssa.Function]map[*ssa.Function]bool{}
@@ -36,6 +65,8 @@ func (p *Prog) reachable(fn *ssa.Function) map[*ssa.Function]bool {
 	p.reachCache[fn] = seen
 	return seen
 }
+
+var codecHook = map[string]bool{"UnmarshalJSON": true, "UnmarshalYAML": true, "MarshalJSON": true, "MarshalYAML": true, "JSONLookup": true}
 
 type scanHit struct {
 	fn   *ssa.Function
@@ -47,8 +78,10 @@ type scanHit struct {
 func rootAlloc(v ssa.Value) bool {
 	for {
 		switch x := v.(type) {
-		case *ssa.Alloc:
+		case *ssa.Alloc, *ssa.MakeSlice, *ssa.MakeMap:
 			return true
+		case *ssa.Slice:
+			v = x.X
 		case *ssa.FieldAddr:
 			v = x.X
 		case *ssa.IndexAddr:
@@ -89,8 +122,19 @@ func (vc *FnVC) scanPreserves(loc string) []scanHit {
 	}
 	env := vc.newEnv(vc.entry, vc.entry)
 	comps := map[string]bool{}
-	for _, c := range env.compsOfLocSpec(loc) {
-		comps[c] = true
+	class := ""
+	if strings.HasPrefix(loc, "all(") && strings.HasSuffix(loc, ")") {
+		class = "pkg:" + loc[4:len(loc)-1]
+	} else {
+		for _, c := range env.compsOfLocSpec(loc) {
+			comps[c] = true
+		}
+	}
+	match := func(c string) bool {
+		if class != "" {
+			return compClass(c) == class
+		}
+		return comps[c]
 	}
 	for f := range reach {
 		if !inModule(f) {
@@ -98,16 +142,40 @@ func (vc *FnVC) scanPreserves(loc string) []scanHit {
 		}
 		for _, b := range f.Blocks {
 			for _, ins := range b.Instrs {
-				st, ok := ins.(*ssa.Store)
-				if !ok {
-					continue
-				}
-				if rootAlloc(st.Addr) {
-					continue
-				}
-				for _, c := range vc.compsOfAddr(st.Addr) {
-					if comps[c] {
-						hits = append(hits, scanHit{f, vc.posOf(ins.Pos()), "store to " + c})
+				switch x := ins.(type) {
+				case *ssa.Store:
+					if rootAlloc(x.Addr) {
+						continue
+					}
+					for _, c := range vc.compsOfAddr(x.Addr) {
+						if match(c) {
+							hits = append(hits, scanHit{f, vc.posOf(ins.Pos()), "store to " + c})
+						}
+					}
+				case *ssa.MapUpdate:
+					if rootAlloc(x.Map) {
+						continue
+					}
+					mh, _, _, _ := vc.mapComps(x.Map.Type().Underlying().(*types.Map))
+					if match(mh) {
+						hits = append(hits, scanHit{f, vc.posOf(ins.Pos()), "map update of " + mh})
+					}
+				case ssa.CallInstruction:
+					if bi, ok := x.Common().Value.(*ssa.Builtin); ok && (bi.Name() == "delete" || bi.Name() == "clear") {
+						if mt, ok := x.Common().Args[0].Type().Underlying().(*types.Map); ok && !rootAlloc(x.Common().Args[0]) {
+							mh, _, _, _ := vc.mapComps(mt)
+							if match(mh) {
+								hits = append(hits, scanHit{f, vc.posOf(ins.Pos()), "delete from " + mh})
+							}
+						}
+					}
+					if bi, ok := x.Common().Value.(*ssa.Builtin); ok && bi.Name() == "copy" {
+						if sl, ok := x.Common().Args[0].Type().Underlying().(*types.Slice); ok && !rootAlloc(x.Common().Args[0]) {
+							c, _ := vc.elemComp(sl.Elem())
+							if match(c) {
+								hits = append(hits, scanHit{f, vc.posOf(ins.Pos()), "copy into " + c})
+							}
+						}
 					}
 				}
 			}
